@@ -152,19 +152,26 @@ fn job(line: &str) -> String {
             }
         }
         Some("F") => {
-            let data = std::fs::read(parts[1]).expect("read input file");
+            use std::io::{Read, Seek, SeekFrom};
             let from: u64 = parts[2].parse().unwrap();
             let to: u64 = parts[3].parse().unwrap();
-            let mut pos = 0usize;
-            let mut k = 0u64;
-            while pos + 4 <= data.len() && k < to {
-                let l = u32::from_le_bytes(data[pos..pos + 4].try_into().unwrap()) as usize;
-                pos += 4;
-                if k >= from {
-                    mark(careful, k);
-                    one(&data[pos..pos + l], &mut t);
+            let off: u64 = parts.get(4).and_then(|s| s.strip_prefix('@')).and_then(|s| s.parse().ok()).expect("byte offset");
+            let mut f = std::io::BufReader::new(std::fs::File::open(parts[1]).expect("open input file"));
+            f.seek(SeekFrom::Start(off)).expect("seek");
+            let mut k = from;
+            let mut len4 = [0u8; 4];
+            let mut rec: Vec<u8> = Vec::with_capacity(2048);
+            while k < to {
+                if f.read_exact(&mut len4).is_err() {
+                    break;
                 }
-                pos += l;
+                let l = u32::from_le_bytes(len4) as usize;
+                rec.resize(l, 0);
+                if f.read_exact(&mut rec).is_err() {
+                    break;
+                }
+                mark(careful, k);
+                one(&rec, &mut t);
                 k += 1;
             }
         }
@@ -192,19 +199,28 @@ fn main() {
         libc::setrlimit(libc::RLIMIT_AS, &lim);
     }
     std::panic::set_hook(Box::new(|_| {}));
-    // watchdog: an input that makes no progress for 25 s of wall-clock time is a hang
+    // watchdog: an input on which the process burns 20 s of CPU time without finishing (or 300 s of wall-clock
+    // time, for a hang that does not spin) is a hang. CPU time, so that a loaded machine or a slow disk
+    // (loading the records file) cannot look like one.
     std::thread::spawn(|| {
-        let mut last = (u64::MAX, 0u32);
+        fn cpu_ms() -> u64 {
+            let mut ts = libc::timespec { tv_sec: 0, tv_nsec: 0 };
+            unsafe {
+                libc::clock_gettime(libc::CLOCK_PROCESS_CPUTIME_ID, &mut ts);
+            }
+            ts.tv_sec as u64 * 1000 + ts.tv_nsec as u64 / 1_000_000
+        }
+        let mut last = (u64::MAX, 0u32, cpu_ms());
         loop {
             std::thread::sleep(std::time::Duration::from_secs(1));
             let p = PROGRESS.load(Ordering::Relaxed) + vharness::props::c14::NODE_PROGRESS.load(Ordering::Relaxed);
             if BUSY.load(Ordering::Relaxed) == 0 {
-                last = (p, 0);
+                last = (p, 0, cpu_ms());
                 continue;
             }
             if p == last.0 {
                 last.1 += 1;
-                if last.1 >= 25 {
+                if cpu_ms().saturating_sub(last.2) >= 20_000 || last.1 >= 300 {
                     let k = CURRENT.load(Ordering::Relaxed).max(vharness::props::c14::NODE_CURRENT.load(Ordering::Relaxed));
                     let mut o = std::io::stdout().lock();
                     let _ = writeln!(o, "H {k}");
@@ -212,7 +228,7 @@ fn main() {
                     std::process::exit(3);
                 }
             } else {
-                last = (p, 0);
+                last = (p, 0, cpu_ms());
             }
         }
     });
